@@ -10,6 +10,8 @@ import CifModel.Lemmas.StoreTotalS
 import CifModel.Lemmas.StoreWOkQ
 import CifModel.Lemmas.StoreRefineW
 import CifModel.Lemmas.StoreSpecRefine
+import CifModel.Lemmas.StoreSpecWorld
+import CifModel.Lemmas.StoreSpecProps
 import CifModel.Lemmas.StoreCodes
 import CifModel.Lemmas.StoreTree
 /-
@@ -1212,33 +1214,187 @@ theorem C04_second_get_packets_refused (w : World) (h : WOk w) (l : Nat) (e : LH
     unfold okLOpen; rw [hl]; simp [hb]
   exact C04_wok_step w (.itOpen l) h hin
 
--- ---- one refinement theorem over histories (for the ops `specStep` covers so far) ---------------------------------------------------
+-- ---- one refinement theorem over histories: all 31 ops ---------------------------------------------------------------------------------
 
 /-- C04_refines: in a world satisfying WOk, an op that keeps to the documented contract does to the documented model with object
-    identities (`absW`, Spec/StoreSpec: every managed CIF as container tree + loops of (category, items, packets)) exactly what
-    `specStep` says, and returns the same result — with no further hypothesis.  Covered so far (`Op.covered`, 24 of the 31 ops): cif_create, cif_destroy,
+    identities (`absW`, Spec/StoreSpec: every managed CIF as container tree + loops of (category, items, packets); every open packet
+    iterator as the abstract iterator `AIter`: its loop, the number of packets passed, "has a current packet", the CIF as it was at
+    creation) exactly what `specStep` says, and returns the same result — with no further hypothesis, for EVERY op of the API
+    (`Op.covered` is `true` everywhere: `Op.covered_all`; the hypothesis of earlier versions is gone): cif_create, cif_destroy,
     create_block, get_block, get_all_blocks, create_frame, get_frame, get_all_frames, get_code, is-block, container_destroy, prune,
     create_loop, get_category_loop, get_item_loop, loop_get_category, loop_set_category, loop_get_names, loop_add_item,
-    loop_add_packet, loop_destroy, get_value, remove_item, get_all_loops (with the names of each loop).  Not yet: set_value
-    (container-local refinement theorems above: `C04_refines_set_value`, `C04_refines_set_value_new`) and the six iterator calls (C06). -/
-theorem C04_refines (w : World) (op : Op) (h : WOk w) (hin : inContract w op = true) (hc : op.covered = true) :
+    loop_add_packet, loop_destroy, get_value, remove_item, get_all_loops (with the names of each loop), set_value (existing item: the
+    value in every packet of its loop; new item: joins the scalar loop, which is created when absent and gets its one packet when it
+    has none; invalid name; NULL value), and the six iterator calls get_packets (also the refused second one), next_packet,
+    update_packet, remove_packet, close, abort. -/
+theorem C04_refines (w : World) (op : Op) (h : WOk w) (hin : inContract w op = true) :
     specStep (absW w) op = some (absW (step w op).1, (step w op).2) :=
-  specStep_refines w op h hin hc
+  specStep_refines w op h hin
 
-/-- … and over whole histories: a history of covered ops that keeps to the contract, started in a world satisfying WOk (the empty
-    world does: `C04_wok_init`), runs on the documented model exactly as on the store model — same final state under `absW`, same
-    result of every call -/
-theorem C04_refines_hist : ∀ (ops : List Op) (w : World), WOk w → inContractHist w ops = true → ops.all Op.covered = true →
+/-- … and over whole histories: ANY history that keeps to the contract, started in a world satisfying WOk (the empty world does:
+    `C04_wok_init`), runs on the documented model exactly as on the store model — same final state under `absW`, same result of
+    every call -/
+theorem C04_refines_hist : ∀ (ops : List Op) (w : World), WOk w → inContractHist w ops = true →
     specRun (absW w) ops = some (absW (run w ops).1, (run w ops).2)
-  | [], _, _, _, _ => rfl
-  | op :: ops, w, h, hc, hcov => by
+  | [], _, _, _ => rfl
+  | op :: ops, w, h, hc => by
     have hc' : (inContract w op && inContractHist (step w op).1 ops) = true := hc
     simp only [Bool.and_eq_true] at hc'
-    simp only [List.all_cons, Bool.and_eq_true] at hcov
     unfold specRun run
-    rw [C04_refines w op h hc'.1 hcov.1]
+    rw [C04_refines w op h hc'.1]
     simp only []
-    rw [C04_refines_hist ops (step w op).1 (C04_wok_step w op h hc'.1) hc'.2 hcov.2]
+    rw [C04_refines_hist ops (step w op).1 (C04_wok_step w op h hc'.1) hc'.2]
+
+/-- from the empty world: the documented model predicts every result of every in-contract history -/
+theorem C04_refines_from_start (ops : List Op) (hc : inContractHist {} ops = true) :
+    specRun {} ops = some (absW (run {} ops).1, (run {} ops).2) :=
+  C04_refines_hist ops {} C04_wok_init hc
+
+-- non-vacuity of C04_refines_hist: an in-contract history from the empty world through every kind of op that was not covered before —
+-- set_value creating the scalar loop / joining it / on a two-packet loop / with an invalid name, and an iterator session (next,
+-- update, remove, a refused second get_packets, a call on another CIF meanwhile) closed, then one aborted
+private def histAll : List Op :=
+  [.cifNew, .mkBlock 0 (some (nm (a!"b"))), .setVal 0 (some (nm (a!"_s"))) (some .na), .setVal 0 (some (nm (a!"_t"))) none,
+   .mkLoop 0 (some (a!"cat")) [nm (a!"_a"), nm (a!"_b")], .addPkt 0 [(a!"_a", .na), (a!"_b", .unk)], .addPkt 0 [(a!"_a", .unk)],
+   .setVal 0 (some (nm (a!"_b"))) (some .na), .setVal 0 (some { key := a!"x", orig := a!"x", valid := false }) (some .na),
+   .cifNew, .mkBlock 1 (some (nm (a!"c"))),
+   .itOpen 0, .itNext 0, .itUpd 0 [(a!"_a", .na)], .setVal 1 (some (nm (a!"_q"))) (some .na), .itOpen 0, .itNext 0, .itRem 0, .itNext 0,
+   .itClose 0, .getVal 0 (some (nm (a!"_a"))), .itOpen 0, .itNext 2, .itRem 2, .itAbort 2, .loops 0]
+example : inContractHist {} histAll = true := by decide
+example : (run {} histAll).2.map (·.rc) =
+    [some 0, some 0, some 0, some 0, some 0, some 0, some 0, some 0, some CIF_INVALID_ITEMNAME, some 0, some 0,
+     some 0, some 0, some 0, some 0, some CIF_ERROR, some 0, some 0, some CIF_FINISHED, some 0, some 0, some 0, some 0, some 0, some 0, some 0] := by decide
+example := C04_refines_from_start histAll (by decide)
+
+/-- cif_container_set_value in a world satisfying WOk, the op in contract: content afterwards and code are the documented model's
+    (`specSetValue`), with no assumption about the history -/
+theorem C04_set_value_in_contract (w : World) (hh : Nat) (n : Option Name) (v : Option V) (h : WOk w)
+    (hin : inContract w (.setVal hh n v) = true) (e : CHE) (s : Store) (hl : w.liveH hh = some (e, s)) :
+    absS (Store.setValue s e.h n v).1.db = (specSetValue (absS s.db) e.h n v).1 ∧
+    (Store.setValue s e.h n v).2 = (specSetValue (absS s.db) e.h n v).2 :=
+  setValue_spec s e.h n v (h.good.live (liveH_liveC hl)) (h.autocommit (liveH_liveC hl) (okH_busy hin hl)) (okH_free hin hl).2
+
+/-- `set_value_all_packets_or_new_scalar`, on the documented model, in closed form (what `specSetValue` amounts to; `C04_refines` /
+    `C04_set_value_in_contract` carry it to the API function in every in-contract history):
+    an item the container HAS — found by cif_container_get_item_loop — gets the value in EVERY packet of its loop (`ALoop.setColumn`:
+    that cell in every packet, every other cell and every other loop untouched); -/
+theorem C04_set_value_existing (a : AState) (h : CH) (n : Name) (v : Option V) (l : LH) (hv : n.valid = true)
+    (hl : specGetItemLoop a h (some n) = .ok l) :
+    specSetValue a h (some n) v = (a.onLoop l.cid l.loopNum (fun y => y.setColumn n.key (v.getD .unk)), .ok ()) :=
+  specSetValue_existing a h n v l hv hl
+
+/-- … in every packet: the cell of the item becomes the value, every other cell of the packet stays -/
+theorem C04_set_value_cells (items : List (Str × Str)) (k : Str) (v : V) (p : List V) (hp : p.length = items.length) :
+    ((items.zip p).map (fun e => if e.1.1 == k then v else e.2)).length = p.length ∧
+    ∀ (j : Nat) (it : Str × Str) (c : V), items[j]? = some it → p[j]? = some c →
+      ((items.zip p).map (fun e => if e.1.1 == k then v else e.2))[j]? = some (if it.1 == k then v else c) :=
+  setColumn_packet items k v p hp
+
+/-- … a NEW item in a container WITHOUT scalar loop: exactly one new loop — last, category "", the item under the spelling given,
+    EXACTLY ONE packet holding the value; -/
+theorem C04_set_value_creates_scalar_loop (a : AState) (h : CH) (n : Name) (v : Option V) (c : ContainerRow) (hv : n.valid = true)
+    (hc : a.containers.find? (fun r => r.id == h.id) = some c)
+    (hitem : a.loops.filter (fun y => y.cid == h.id && y.hasItem n.key) = [])
+    (hscal : a.loops.filter (fun y => y.cid == h.id && y.category == some []) = [])
+    (hfresh : a.findLoop h.id c.nextLoopNum = none) :
+    specSetValue a h (some n) v =
+      ({ a with containers := a.containers.map (fun r => if r.id == h.id then { r with nextLoopNum := r.nextLoopNum + 1 } else r),
+                loops := a.loops ++ [{ cid := h.id, num := c.nextLoopNum, category := some [],
+                                       items := [(n.key, n.orig)], packets := [[v.getD .unk]] }] }, .ok ()) :=
+  specSetValue_creates a h n v c hv hc hitem hscal hfresh
+
+/-- … a NEW item in a container that HAS its scalar loop `y`: `y` gains the item, last; its packet gains the value, or — when `y` has
+    no packet — `y` gets EXACTLY ONE packet (the unknown value for the older items, the value for the new one); nothing else changes;
+    an invalid or NULL name: CIF_INVALID_ITEMNAME and nothing changes -/
+theorem C04_set_value_joins_scalar_loop (a : AState) (h : CH) (n : Name) (v : Option V) (y : ALoop) (hv : n.valid = true)
+    (hitem : a.loops.filter (fun z => z.cid == h.id && z.hasItem n.key) = [])
+    (hscal : a.loops.filter (fun z => z.cid == h.id && z.category == some []) = [y])
+    (huniq : ∀ z ∈ a.loops, (z.cid == y.cid && z.num == y.num) = true → z = y) :
+    specSetValue a h (some n) v =
+      (a.onLoop y.cid y.num (fun _ => { y with
+          items := y.items ++ [(n.key, n.orig)]
+          packets := (if y.packets.isEmpty then [y.items.map (fun _ => V.unk) ++ [v.getD .unk]] else y.packets.map (· ++ [v.getD .unk])) }),
+       .ok ()) :=
+  specSetValue_joins a h n v y hv hitem hscal huniq
+
+/-- the two hypotheses of `C04_set_value_creates_scalar_loop` / `C04_set_value_joins_scalar_loop` about the documented state hold for
+    the abstraction of EVERY store satisfying `Inv` (so: of every reachable one): a loop is determined by (container, number), and the
+    loop number a container hands out next is not in use -/
+theorem C04_abs_loop_keys (d : Db) (hinv : Inv d) (y : ALoop) (hy : y ∈ (absS d).loops) :
+    ∀ z ∈ (absS d).loops, (z.cid == y.cid && z.num == y.num) = true → z = y :=
+  absS_keys_unique d hinv y hy
+
+theorem C04_abs_fresh_loop_num (d : Db) (hinv : Inv d) (cid : Nat) (c : ContainerRow)
+    (hc : (absS d).containers.find? (fun r => r.id == cid) = some c) : (absS d).findLoop cid c.nextLoopNum = none :=
+  absS_fresh d hinv cid c hc
+
+theorem C04_set_value_invalid_name (a : AState) (h : CH) (v : Option V) :
+    specSetValue a h none v = (a, .error CIF_INVALID_ITEMNAME) ∧
+    ∀ n : Name, n.valid = false → specSetValue a h (some n) v = (a, .error CIF_INVALID_ITEMNAME) :=
+  specSetValue_invalid a h v
+
+-- the hypotheses of the three closed forms are met by concrete states of the documented model
+private def aEx : AState :=
+  { containers := [{ id := 1, nextLoopNum := 1 }], blocks := [{ cid := 1, name := a!"b", nameOrig := a!"b" }], nextId := 2,
+    loops := [{ cid := 1, num := 0, category := none, items := [(a!"_a", a!"_a")], packets := [[.na], [.unk]] }] }
+private def hEx : CH := { id := 1, code := a!"b", isBlock := true }
+private def yEx : ALoop := { cid := 1, num := 1, category := some [], items := [(a!"_s", a!"_s")], packets := [] }
+example := C04_set_value_existing aEx hEx (nm (a!"_a")) (some .na) { cid := 1, loopNum := 0, category := none } rfl rfl
+example := C04_set_value_creates_scalar_loop aEx hEx (nm (a!"_t")) (some .na) { id := 1, nextLoopNum := 1 } rfl rfl rfl rfl rfl
+example := C04_set_value_joins_scalar_loop { aEx with loops := aEx.loops ++ [yEx] } hEx (nm (a!"_t")) (some .na) yEx rfl rfl rfl
+  (by intro z hz hk
+      have hz' : z = { cid := 1, num := 0, category := none, items := [(a!"_a", a!"_a")], packets := [[.na], [.unk]] } ∨ z = yEx := by
+        simpa [aEx] using hz
+      rcases hz' with h1 | h1
+      · subst h1; simp [yEx] at hk
+      · exact h1)
+example : (specGetItemLoop { loops := [{ cid := 1, num := 0, category := none, items := [(a!"_a", a!"_a")], packets := [[.na], [.unk]] }] }
+    { id := 1, code := [], isBlock := true } (some (nm (a!"_a")))).toOption.map (·.loopNum) = some 0 := by decide
+example : ((({ containers := [{ id := 1, nextLoopNum := 0 }] } : AState).containers.find? (fun r => r.id == 1)).map (·.nextLoopNum)) = some 0 := by decide
+
+/-- `names_returned_as_created`, as ops of a history, in ANY world (so inside any history): when cif_create_block succeeds, asking the handle it returned for
+    its code gives exactly the spelling the block was created with -/
+theorem C04_hist_names_returned_as_created (w : World) (c : Nat) (n : Name)
+    (hok : (step w (.mkBlock c (some n))).2.rc = some CIF_OK) :
+    (step (step w (.mkBlock c (some n))).1 (.code w.chs.length)).2.rc = some CIF_OK ∧
+    (step (step w (.mkBlock c (some n))).1 (.code w.chs.length)).2.out = .str (some n.orig) := by
+  simp only [step] at hok ⊢
+  cases hl : w.liveC c with
+  | none => rw [hl] at hok; cases hok
+  | some s =>
+    rw [hl] at hok
+    simp only [] at hok ⊢
+    cases hr : createBlock s (some n) with
+    | mk s1 r =>
+      rw [hr] at hok
+      cases r with
+      | error e =>
+        exfalso
+        have h0 : e = CIF_OK := by
+          have : World.codeOf (Except.error e : Except Code CH) = e := rfl
+          simpa [this] using hok
+        subst h0
+        -- cif_create_block fails with CIF_INVALID_BLOCKCODE, CIF_ERROR or CIF_DUP_BLOCKCODE only
+        unfold createBlock at hr
+        simp only [] at hr
+        split at hr
+        · simp only [Prod.mk.injEq, Except.error.injEq] at hr; exact absurd hr.2 (by decide)
+        · split at hr
+          · simp only [Prod.mk.injEq, Except.error.injEq] at hr; exact absurd hr.2 (by decide)
+          · split at hr
+            · simp only [Prod.mk.injEq, Except.error.injEq] at hr; exact absurd hr.2 (by decide)
+            · simp only [Prod.mk.injEq] at hr; cases hr.2
+      | ok hB =>
+        have hcode := names_returned_as_created s n hB (by rw [hr])
+        have hlive : (World.liveH { (w.setCif c s1) with chs := w.chs ++ [some { cif := c, h := hB }] } w.chs.length) =
+            some ({ cif := c, h := hB }, s1) := by
+          unfold World.liveH World.liveC World.setCif
+          simp only [List.getD, List.getElem?_append_right (Nat.le_refl _), Nat.sub_self, List.getElem?_cons_zero, Option.getD_some]
+          have := liveC_set_self w c s s1 hl
+          simp only [List.getD] at this
+          simp [this]
+        simp only [hlive, hcode]
+        exact ⟨by first | rfl | trivial, by first | rfl | trivial⟩
 
 -- ---- failure-code agreement with Spec/DataModel (loop level) ---------------------------------------------------------------------
 
